@@ -54,7 +54,7 @@ theorem getElem?_set_self' {h : Heap} {a : Nat} {o o' : Obj} (ha : h[a]? = some 
   simp [hal]
 
 theorem pySetitem_get {env : MEnv} {h : Heap} {d key v : Val} {w : Wr}
-    (hk : ∀ a, key ≠ .ref a) (hsc : isScope env h d = false)
+    (hk : ∀ a, key ≠ .ref a)
     (hs : pySetitem env h d key v = .ok w) : pyGetitem w.heap d key = .ok v := by
   unfold pySetitem at hs
   split at hs
@@ -66,8 +66,6 @@ theorem pySetitem_get {env : MEnv} {h : Heap} {d key v : Val} {w : Wr}
       · split at hs
         · contradiction
         · rename_i hh
-          have hnsc : env.flag c "scope" = false := by simpa [isScope, ha, Obj.cls] using hsc
-          simp only [hnsc, Bool.false_eq_true, if_false] at hs
           injection hs with hs; subst hs
           have hh' : key.hashable (h.set a (.dict c (setEntry es key v))) = true := by
             rw [hashable_scalar (h := h) hk]; simpa using hh
@@ -122,7 +120,6 @@ theorem pySetattr_get {env : MEnv} {h : Heap} {d name v : Val} {w : Wr}
   · contradiction
 
 theorem pySetSeqItem_get {env : MEnv} {h : Heap} {d idx v : Val} {w : Wr}
-    (hsc : isScope env h d = false)
     (hs : pySetSeqItem env h d idx v = .ok w) : pySeqGet w.heap d idx = .ok v := by
   unfold pySetSeqItem at hs
   unfold pySeqGet
@@ -130,7 +127,7 @@ theorem pySetSeqItem_get {env : MEnv} {h : Heap} {d idx v : Val} {w : Wr}
   split at hs
   · rename_i i hi
     simp only [hi]
-    exact pySetitem_get (by intro a; simp) hsc hs
+    exact pySetitem_get (by intro a; simp) hs
   · contradiction
 
 end Glom.C11
@@ -234,22 +231,32 @@ theorem pySetSeqItem_cls {env : MEnv} {h : Heap} {d idx v : Val} {w : Wr}
   · contradiction
 
 /-- **round trip of one step**: after the assignment a step denotes, the access the same step
-    denotes reads the assigned value back (unless Python stored it where the cell cannot show it) -/
+    denotes reads the assigned value back (unless Python stored it where the cell cannot show it:
+    a hidden attribute of a container subclass, an attribute of the scope's ChainMap object — an
+    *item* binding `S[name] = v` in the scope frame does read back) -/
 theorem refAssign_roundtrip {env : MEnv} (hp : pairedRegs env = true) {h : Heap} {op : String}
     {d arg v : Val} {w : Wr} (hw : C01.wfSteps [(op, arg)] = true) (hk : ∀ a, arg ≠ .ref a)
-    (hsc : isScope env h d = false) (hnh : w.hidden = false)
+    (hsc' : isScope env h d = false ∨ op = "[") (hnh : w.hidden = false)
     (hs : refAssignOp env h op d arg v = some (.ok w)) :
     C01.refAccess env.t w.heap op d arg = some (.ok v) := by
   rcases (wfSteps_op hw).1 with rfl | rfl | rfl
-  · simp only [refAssignOp] at hs
+  · have hsc : isScope env h d = false := by
+      rcases hsc' with h1 | h1
+      · exact h1
+      · exact absurd h1 (by decide)
+    simp only [refAssignOp] at hs
     simp at hs
     simp only [C01.refAccess, beq_self_eq_true, if_true]
     rw [pySetattr_get hsc hnh hs]
   · simp only [refAssignOp, beq_self_eq_true, if_true, Option.some.injEq] at hs
     simp only [C01.refAccess]
     simp
-    exact pySetitem_get hk hsc hs
-  · simp only [refAssignOp] at hs
+    exact pySetitem_get hk hs
+  · have hsc : isScope env h d = false := by
+      rcases hsc' with h1 | h1
+      · exact h1
+      · exact absurd h1 (by decide)
+    simp only [refAssignOp] at hs
     simp at hs
     obtain ⟨hn, hnh', hs⟩ := hs
     obtain ⟨g, hg, hpair⟩ := paired_handler hp h d hn hnh'
@@ -272,10 +279,10 @@ theorem refAssign_roundtrip {env : MEnv} (hp : pairedRegs env = true) {h : Heap}
     rcases hpair with ⟨rfl, rfl⟩ | ⟨rfl, rfl⟩ | ⟨rfl, rfl⟩
     · simp only [applyAssignHandler, beq_self_eq_true, if_true] at hs
       simp only [C01.applyHandler, beq_self_eq_true, if_true]
-      exact pySetitem_get hk hsc hs
+      exact pySetitem_get hk hs
     · simp [applyAssignHandler] at hs
       simp [C01.applyHandler]
-      exact pySetSeqItem_get hsc hs
+      exact pySetSeqItem_get hs
     · simp [applyAssignHandler] at hs
       simp [C01.applyHandler]
       exact pySetattr_get hsc hnh hs
